@@ -2,12 +2,9 @@
 # usage: trymutant.sh <patch> <prop> [vcheck args...]   — applies a patch to /repo, runs a check, reverts
 patch=$1; shift; prop=$1; shift
 cd /repo || exit 2
-if ! git apply --check "$patch" 2>/dev/null; then
-  if git apply --3way --check "$patch" 2>/dev/null; then echo "(3way apply)"; else echo "PATCH DOES NOT APPLY: $patch"; exit 3; fi
-  git apply --3way "$patch" || exit 3
-else
-  git apply "$patch"
-fi
+if git apply --check "$patch" 2>/dev/null; then git apply "$patch"
+elif git apply -C1 --check "$patch" 2>/dev/null; then echo "(applied with -C1)"; git apply -C1 "$patch"
+else echo "PATCH DOES NOT APPLY: $patch"; exit 3; fi
 cd /verif && bin/vcheck $prop "$@"; rc=$?
 git -C /repo checkout -q -- . ; git -C /repo reset -q; git -C /repo clean -fdq
 echo "rc=$rc"
